@@ -16,6 +16,17 @@
                      L5 S"call" S<dst> S<src> L<args> M<kwargs>    src(*args, **kwargs)         (result not kept)
               the op's outcome is that of its last step, or the exception of the first step that raises; calling
               a `_Method` gives its value, a `MultiCallMethod` gives N, a `MultiCall` the batch value
+         L2 S"reg" <regop>               an operation of the program on the server's registry (JRV.Model.RegistryProg):
+              regop = L3 S"regfunc" S<name> <callable>             self.funcs[name] = f
+                      L2 S"delfunc" S<name>                        del self.funcs[name]
+                      L2 S"introspection" <callable>               register_introspection_functions() (the callable
+                                                                   stands for system.methodHelp: pydoc is not modelled)
+                      L2 S"newinst" L<n> (L2 S<name> <attr>)..     a new object (index = number of objects so far)
+                      L2 S"reginst" (N | I<k>)                     register_instance(object k | None)
+                      L4 S"setattr" I<k> L<path> <attr>            setattr along the path on object k
+                      L3 S"delattr" I<k> L<path>                   delattr likewise
+              its outcome is N or the exception (KeyError / AttributeError); the registry given in the spec is the
+              initial state (its instance, if any, is object 0, registered)
   The ops run in order on one proxy and one History; request `n` (counting every `dumps`) draws the id
   `fresh#n`.
 
@@ -40,6 +51,7 @@
 import JRV.Driver.Codec
 import JRV.Driver.Server
 import JRV.Model.EndToEnd
+import JRV.Model.RegistryProg
 
 namespace JRV.Driver
 open JRV JRV.Codec JRV.Callable JRV.Server JRV.EndToEnd
@@ -127,6 +139,8 @@ structure St where
   out : List PyVal := []
   heap : Heap := {}
   env : List (String × Ref) := [("proxy", .proxy)]
+  /-- the server's registry now -/
+  dstate : RegProg.DispState := {}
 
 def historyVal (h : History) : PyVal :=
   .tuple [.list (h.requests.map PyVal.str), .list (h.responses.map PyVal.str)]
@@ -179,9 +193,8 @@ def runSteps (c : Proxy) (m : McConfig) (p : Peer) (st : St) (last : PyM PyVal) 
       some { st' with out := st'.out ++ [.tuple [outcomeVal (.error e), .list ((effs ++ eff).map effectVal)]] }
     | some (st', .ok v, eff) => runSteps c m p st' (.ok v) (effs ++ eff) rest
 
-/-- One op; `none` for an ill-formed op, `some (.error e)` when an exception escapes where the real
-    program would stop building the job list (reported as the op's outcome). -/
-def stepOp (c : Proxy) (m : McConfig) (p : Peer) (st : St) : PyVal → Option St
+/-- One op of the client program against the server end `p`. -/
+def stepOpOn (c : Proxy) (m : McConfig) (p : Peer) (st : St) : PyVal → Option St
   | .list [.str "call", .list path, .list args, .dict kwargs] => do
     let path ← pathOf path
     let r := EndToEnd.call tokenCodec c p st.history (freshId st.next) path args kwargs
@@ -199,6 +212,39 @@ def stepOp (c : Proxy) (m : McConfig) (p : Peer) (st : St) : PyVal → Option St
       some (St.record { st with history := r.history, next := st.next + js.length } (r.value.bind batchVal) r.effects)
   | .list [.str "script", .list steps] => runSteps c m p st (.ok .none) [] steps
   | _ => none
+
+def natOf : PyVal → Option Nat
+  | .int i => if i ≥ 0 then some i.toNat else none
+  | _ => none
+
+def regOpOf : PyVal → Option RegProg.RegOp
+  | .list [.str "regfunc", .str name, c] => (callableOf c).map (RegProg.RegOp.registerFunction name)
+  | .list [.str "delfunc", .str name] => some (.deleteFunction name)
+  | .list [.str "introspection", c] => (callableOf c).map RegProg.RegOp.registerIntrospection
+  | .list [.str "newinst", .list chs] => (attrsOf chs).map fun a => .newInstance { attrs := a }
+  | .list [.str "reginst", .none] => some (.registerInstance none)
+  | .list [.str "reginst", k] => (natOf k).map fun n => .registerInstance (some n)
+  | .list [.str "setattr", k, .list path, a] => do
+    let n ← natOf k
+    let p ← namesOf path
+    let x ← attrOf 64 a
+    some (.setAttr n p x)
+  | .list [.str "delattr", k, .list path] => do
+    let n ← natOf k
+    let p ← namesOf path
+    some (.delAttr n p)
+  | _ => none
+
+/-- One op; `none` for an ill-formed op, `some (.error e)` when an exception escapes where the real
+    program would stop building the job list (reported as the op's outcome).  The server end is `base` with the
+    registry the state denotes at this moment. -/
+def stepOp (c : Proxy) (m : McConfig) (base : Peer) (st : St) : PyVal → Option St
+  | .list [.str "reg", r] => do
+    let op ← regOpOf r
+    match RegProg.applyOp st.dstate op with
+    | .ok d => some (St.record { st with dstate := d } (.ok .none) [])
+    | .error e => some (St.record st (.error e) [])
+  | op => stepOpOn c m (RegProg.peerOf base st.dstate) st op
 
 def runOps (c : Proxy) (m : McConfig) (p : Peer) : St → List PyVal → Option St
   | st, [] => some st
@@ -232,9 +278,9 @@ def e2eC (toks : List String) : String :=
     | some ccfg, some cver, some scfg, some (reg, custom), some mcfg =>
       let c : Proxy := { cfg := ccfg, version := cver, conv := stdConv, unconv := stdUnconv }
       let m : McConfig := { cfg := mcfg, conv := stdConv }
-      let p : Peer := { srv := { cfg := scfg, reg := reg, custom := custom, pool := .absent, conv := stdConv },
+      let p : Peer := { srv := { cfg := scfg, custom := custom, pool := .absent, conv := stdConv },
                         unconv := stdUnconv }
-      match runOps c m p {} ops with
+      match runOps c m p { dstate := RegProg.DispState.ofRegistry reg } ops with
       | some st =>
         match findUnmodelledList st.out with
         | some a => "err Unmodelled " ++ showVal a
